@@ -1,4 +1,5 @@
 mod common;
+mod c05;
 mod c12;
 mod c15;
 mod c16;
@@ -17,6 +18,7 @@ fn main() {
         "replay" => {
             let (prop, cases, verd) = (&args[2], &args[3], &args[4]);
             match prop.as_str() {
+                "C05" => c05::replay(cases, verd),
                 "C12" => c12::replay(cases, verd),
                 "C15" => c15::replay(cases, verd),
                 "C16" => c16::replay(cases, verd),
@@ -33,6 +35,7 @@ fn main() {
             let n: usize = args[4].parse().unwrap();
             let out = &args[5];
             match sub.as_str() {
+                "C05" => c05::record(seed, n, out, args.get(6).and_then(|s| s.parse().ok()).unwrap_or(12)),
                 "C12" => c12::record(seed, n, out, args.get(6).and_then(|s| s.parse().ok()).unwrap_or(16)),
                 "C15" => c15::record(seed, n, out),
                 "C18" => c18::record(&args[6], seed, n, out),
